@@ -1120,8 +1120,54 @@ func c04CapturedFlag(w *World, r *Report, key, pos string, fn *ssa.Function, c s
 	if ok {
 		fv, _ = u.X.(*ssa.FreeVar)
 	}
+	bad := ""
+	ntrue := 0
+	if prm, isParam := sec.(*ssa.Parameter); isParam && fv == nil {
+		// the flag is handed in by the caller(s): it may be true only on caller paths that obtained a TLS configuration
+		pidx := -1
+		for i, q := range fn.Params {
+			if q == prm {
+				pidx = i
+			}
+		}
+		ncall := 0
+		for caller := range allModuleFuncs(w, w.SSA()) {
+			for _, c2 := range callsIn(caller) {
+				if c2.Common().StaticCallee() != fn || pidx < 0 || pidx >= len(c2.Common().Args) {
+					continue
+				}
+				ncall++
+				arg := c2.Common().Args[pidx]
+				stop, _ := c2.(ssa.Instruction)
+				enumPaths(caller, nil, func(in ssa.Instruction) bool {
+					cc, ok := in.(ssa.CallInstruction)
+					return ok && sCallee(cc) != nil && sCallee(cc).Name() == "GetTlsConfig"
+				}, func(in ssa.Instruction) bool { return in == stop }, func(e pathExit) {
+					if e.Stop == nil {
+						return
+					}
+					if t, known := e.State.Truth(arg); known && !t {
+						return
+					}
+					if b, isC := constBool(e.State.Resolve(arg)); isC && !b {
+						return
+					}
+					ntrue++
+					if len(e.State.Events) == 0 {
+						bad = fmt.Sprintf("%s: the secure flag handed to %s can be true on a path that did not obtain a TLS configuration", w.Pos(c2.Pos()), ssaFuncKey(fn))
+					}
+				})
+			}
+		}
+		if ncall == 0 {
+			r.Undecided("R04.5", key, pos, "secure argument is a parameter of a function that has no static caller")
+			return
+		}
+		c04CapturedFlagInner(w, r, key, pos, fn, c, bad, ntrue)
+		return
+	}
 	if fv == nil || fn.Parent() == nil {
-		r.Undecided("R04.5", key, pos, "secure argument is neither a constant, a field of the server, nor a captured local: idiom not recognised")
+		r.Undecided("R04.5", key, pos, "secure argument is neither a constant, a field of the server, a parameter nor a captured local: idiom not recognised")
 		return
 	}
 	parent := fn.Parent()
@@ -1140,8 +1186,6 @@ func c04CapturedFlag(w *World, r *Report, key, pos string, fn *ssa.Function, c s
 		r.Undecided("R04.5", key, pos, "closure binding of the captured flag not found")
 		return
 	}
-	bad := ""
-	ntrue := 0
 	for _, st := range storesTo(binding) {
 		if b, isC := constBool(st.Val); isC && b {
 			ntrue++
@@ -1160,7 +1204,12 @@ func c04CapturedFlag(w *World, r *Report, key, pos string, fn *ssa.Function, c s
 			bad = fmt.Sprintf("%s: the captured secure flag is assigned a non-constant", w.Pos(st.Pos()))
 		}
 	}
-	// in the closure: on every path to the call where a TLS config non-nil test is true, the connection derives from tls.Server after a successful handshake
+	c04CapturedFlagInner(w, r, key, pos, fn, c, bad, ntrue)
+}
+
+// c04CapturedFlagInner: in the function that calls AcceptConnection, on every path to the call where a TLS
+// config non-nil test is true, the connection derives from tls.Server after a successful handshake.
+func c04CapturedFlagInner(w *World, r *Report, key, pos string, fn *ssa.Function, c ssa.CallInstruction, bad string, ntrue int) {
 	connArg := c.Common().Args[0]
 	tlsPaths := 0
 	enumPaths(fn, nil, nil, func(in ssa.Instruction) bool { return in == c.(ssa.Instruction) }, func(e pathExit) {
